@@ -240,7 +240,7 @@ func joinTokens(t []string) string {
 }
 
 var mutAlphabet = []string{"interface", "type", "method", "error", "bool", "int", "float", "string", "object", "T", "a", "b", "Zz",
-	"(", ")", ":", ",", "->", "?", "[]", "[string]", "[", "]", "[int]", "#", "\n", "x.y", "-", ">", "_", "9", "()", "#\n", " ", "\t"}
+	"(", ")", ":", ",", "->", "?", "[]", "[string]", "[", "]", "[int]", "#", "\n", "x.y", "-", ">", "_", "9", "()", "#\n", " ", "\t", "\u00a0", "\u2028", "\u3000", "\u0085", "\u200b", "\ufeff", "\u2003", "\v", "\f"}
 
 type idlInput struct {
 	Text string `json:"text"`
@@ -661,6 +661,26 @@ func runC09(r *fw.Run) {
 		}
 	}
 	in = append(in, "interface a."+strings.Repeat("b", 65000)+"\nmethod F()->()", "interface a.b\nmethod "+strings.Repeat("F", 65000)+"()->()")
+	// long lists (struct fields, enum names, members), complete and cut short
+	for _, n := range []int{15, 16, 17, 31, 32, 33, 63, 64, 65, 66, 127, 128, 129, 255, 256, 257, 1000, 5000} {
+		var fl, en, ms strings.Builder
+		for i := 0; i < n; i++ {
+			if i > 0 {
+				fl.WriteString(", ")
+				en.WriteString(", ")
+			}
+			fmt.Fprintf(&fl, "f%d: int", i)
+			fmt.Fprintf(&en, "e%d", i)
+			fmt.Fprintf(&ms, "method M%d() -> ()\n", i)
+		}
+		full := []string{"interface a.b\ntype T (" + fl.String() + ")\nmethod F()->()", "interface a.b\ntype T (" + en.String() + ")\nmethod F()->()",
+			"interface a.b\nmethod F(" + fl.String() + ")->(" + fl.String() + ")", "interface a.b\nmethod F()->()\nerror E (" + fl.String() + ")", "interface a.b\n" + ms.String()}
+		for _, f := range full {
+			if len(f) <= 65536 {
+				in = append(in, f, f[:len(f)-1], f[:len(f)*3/4])
+			}
+		}
+	}
 	run("nesting_bombs", in)
 
 	// 6. random bytes and random token soup
